@@ -116,9 +116,16 @@ class IASolverBaseClass:  # pylint: disable=R0902
         np.ndarray
             A 1D numpy array of 2D numpy arrays.
         """
+        # The copies have (at least) double precision: numpy computes
+        # products of integer matrices in the integer type of the operands
+        # (int8 / uint8 silently wrap around) and products of single
+        # precision matrices in single precision, which would end up in
+        # the equivalent channels, covariance matrices and SINRs.
         copied = np.empty(len(matrices), dtype=np.ndarray)
         for k, matrix in enumerate(matrices):
-            copied[k] = np.array(matrix)
+            copied[k] = np.array(matrix,
+                                 dtype=np.result_type(
+                                     np.asarray(matrix).dtype, np.float64))
         return copied
 
     def _clear_receive_filter(self) -> None:
